@@ -452,8 +452,21 @@ class AsyncController(object):
 
 
 def _run_async(world, case, plan):
+    closed_ctx = bool(case.get("closed_ctx")) and case.get("outer", 1) == 0
     leave, parent, children = _enter_outer(world, case)
-    shared = _prepare(world, case, parent, children)
+    if closed_ctx:
+        # the parent action is current only while the tasks are created (inside `with P.context():`); nothing is
+        # open anywhere when they run, yet they inherited P
+        n = world.next_n()
+        model = {"kind": "action", "n": n, "who": "parent", "children": [], "type": "c05:outer"}
+        world.roots.append(model)
+        parent = start_action(action_type="c05:outer", n=n, who="parent")
+        children = model["children"]
+    if closed_ctx:
+        with parent.context():
+            shared = _prepare(world, case, parent, children)
+    else:
+        shared = _prepare(world, case, parent, children)
     world.parent = (parent, children) if parent is not None else None
     controller = AsyncController(plan)
     counter = [0]
@@ -497,10 +510,18 @@ def _run_async(world, case, plan):
 
     async def main():
         tasks = []
-        for k, w in enumerate(case["workers"]):
-            who = "w%d" % k
-            nodes = _precreate(world, w, parent, children, who)
-            tasks.append(spawn(who, nodes, children if parent is not None else world.roots, parent))
+        cm = parent.context() if closed_ctx else None
+        if cm is not None:
+            cm.__enter__()
+        try:
+            for k, w in enumerate(case["workers"]):
+                who = "w%d" % k
+                nodes = _precreate(world, w, parent, children, who)
+                tasks.append(spawn(who, nodes, children if parent is not None else world.roots, parent))
+        finally:
+            if cm is not None:
+                cm.__exit__(None, None, None)
+                world.expect("parent", None, "after leaving the block in which the tasks were created")
         controller.top = tasks
         ctl = asyncio.ensure_future(controller.run())
         try:
@@ -509,7 +530,7 @@ def _run_async(world, case, plan):
             for t in tasks:
                 t.cancel()
         await ctl
-        world.expect("parent", parent, "after awaiting the tasks")
+        world.expect("parent", None if closed_ctx else parent, "after awaiting the tasks")
 
     loop = asyncio.new_event_loop()
     try:
@@ -520,6 +541,8 @@ def _run_async(world, case, plan):
     world.steps = controller.steps
     if shared is not None:
         shared[0].finish()
+    if closed_ctx:
+        parent.finish()
     leave()
     world.expect("parent", None, "at the end")
 
